@@ -257,6 +257,7 @@ class World:
             for attr, acts in self.acts[i]:
                 getattr(box, attr).extend(acts)
             box.goacts.append(self.goacts[i])
+            box.goacts.append(self.goact_second(i))     # a second transition condition of the same box, true whenever the first is
             boxes.append(box)
         boxer.boxes = {b.name: b for b in boxes}
         boxer.first = boxes[first]
@@ -283,6 +284,15 @@ class World:
         def go():
             return self.dest if self.fire == i else None
         return go
+
+    def goact_second(self, i):
+        """declared after the first one and pointing somewhere else (the first box of the forest): when both hold in one pass,
+        the one declared first decides and nothing else happens"""
+        def go2():
+            # (not in a cycle with a failing precondition: after a refused transition hio goes on to the next condition,
+            #  which is its documented way of falling through)
+            return self.boxes[0] if (self.fire == i and self.boxes and self.dest is not self.boxes[0] and self.fail == (-1, -1)) else None
+        return go2
 
     def active(self):
         b = self.boxer.box
